@@ -57,7 +57,7 @@ func c09(e *Env) {
 	}
 	g := sp.g
 	isMarshal := func(n *core.Node) bool {
-		return n.IsCallTo("encoding/json.MarshalIndent", "encoding/json.Marshal")
+		return n.IsCallTo("encoding/json.MarshalIndent", "encoding/json.Marshal", "(*encoding/json.Encoder).Encode")
 	}
 	type site struct {
 		n    *core.Node
